@@ -41,7 +41,7 @@ static inline long OBJ(int i, int k) { return 10L * i + k; }
 static inline long OBJ_STREAM(int j) { return 1000 + j; }
 static int buf_index_of(const void *p) {
   if (!g_bg || !g_bg->buflst) return -1;
-  const char *c = (const char *)p, *base = (const char *)g_bg->buflst;
+  const char *c = (const char *)p, *base = (const char *)&g_bg->buflst[0]; // works for a raw array pointer, unique_ptr<T[]> and std::vector alike
   if (c < base || c >= base + sizeof(iobuffer) * g_bg->size) return -1;
   return (int)((c - base) / sizeof(iobuffer));
 }
@@ -137,14 +137,14 @@ extern "C" void wencry_verif_point(int kind, long index, long aux) {
 static long group_of(int op, void *obj) {
   (void)op;
   if (!g_bg || !g_bg->ctrl) return -1;
-  const char *c = (const char *)obj, *base = (const char *)g_bg->ctrl;
+  const char *c = (const char *)obj, *base = (const char *)&g_bg->ctrl[0];
   if (c >= base && c < base + sizeof(bufferctrl) * g_bg->size) return (long)((c - base) / sizeof(bufferctrl));
   return -1;
 }
 static int fp_of_pthread_op(int op, void *obj, vs_fp_t out[VS_MAXFP]) {
   (void)op;
   if (!g_bg || !g_bg->ctrl) return -1;
-  const char *c = (const char *)obj, *base = (const char *)g_bg->ctrl;
+  const char *c = (const char *)obj, *base = (const char *)&g_bg->ctrl[0];
   if (c < base || c >= base + sizeof(bufferctrl) * g_bg->size) return -1;
   int i = (int)((c - base) / sizeof(bufferctrl));
   bufferctrl &b = g_bg->ctrl[i];
